@@ -24,3 +24,32 @@ Proof.
       apply legal_moves_iff in H0. rewrite H in H0. discriminate.
 Qed.
 Print Assumptions C07_no_moves_iff.
+
+(* ---- the answers computed from the KEY history equal the rules' answers on the POSITION history ----
+   hist_rel s h: the state's key history is the list of keys of the positions h of the game (most recent first), its key is in
+   step (C04) and it represents the latest position (C02).  Established by the constructor, preserved by do_move on every
+   pseudo-legal move of a well-formed state.  Under "no two different positions of this game share a key" (a 64-bit collision
+   is the only way the two can differ) is_repeated / threefold / rule50 ARE occurred_before / occurred_three_times /
+   fifty_moves. *)
+From CV Require Import Chess.HistoryKeys Engine.PositionRep Engine.RepAbs Engine.RepRefineLegal Engine.KeyScratchInit Engine.HistoryRefine.
+From Coq Require Import List.
+Import ListNotations.
+
+Theorem C07_repetition_and_fifty_move_answers_agree_with_the_history :
+  forall (zt : zobrist) (s : rep) (p : position) (earlier : list position),
+    hist_rel zt s (p :: earlier) -> no_collision (Kpos zt) p earlier ->
+    is_repeated s = occurred_before (p :: earlier) /\
+    threefold s = occurred_three_times (p :: earlier) /\
+    rule50 s = fifty_moves p.
+Proof. exact repetition_answers_agree. Qed.
+Print Assumptions C07_repetition_and_fifty_move_answers_agree_with_the_history.
+
+Theorem C07_history_invariant_along_every_game :
+  forall (zt : zobrist) (p0 : position) (ms : list move),
+    length (brd p0) = 64%nat -> line_ok zt (rep_of_position zt p0) ms ->
+    hist_rel zt (play_rep zt (rep_of_position zt p0) ms) (play_history [rep_abs (rep_of_position zt p0)] ms).
+Proof. intros zt p0 ms Hl L. apply hist_rel_along_line; [apply hist_rel_init; exact Hl|exact L]. Qed.
+Print Assumptions C07_history_invariant_along_every_game.
+
+(* C07_check_mate_material_partial: in_check / checkmate / stalemate / insufficient material as coded are not refined by a theorem;
+   they are compared with the spec after every ply of the generated games. *)
